@@ -28,6 +28,7 @@ import (
 type Route struct {
 	Method string `json:"method"`
 	Path   string `json:"path"` // template
+	Op     string `json:"op"`   // Handler method (= operation name the middleware sees)
 }
 
 // CorpusPkg is one regenerated corpus server.
@@ -176,9 +177,19 @@ func glue(dir string) (_ []Route, hasServer, stubErrors bool, _ error) {
 			stubErrors = true
 		}
 		if e.Name() == "oas_server_gen.go" {
+			var pending *Route
 			for _, l := range strings.Split(string(src), "\n") {
 				if m := routeRe.FindStringSubmatch(l); m != nil {
-					routes = append(routes, Route{Method: m[1], Path: m[2]})
+					pending = &Route{Method: m[1], Path: m[2]}
+					continue
+				}
+				if pending != nil && !strings.HasPrefix(strings.TrimSpace(l), "//") {
+					// the declaration the comment belongs to: "\tName(ctx context.Context, ..."
+					if i := strings.Index(l, "("); i > 0 {
+						pending.Op = strings.TrimSpace(l[:i])
+					}
+					routes = append(routes, *pending)
+					pending = nil
 				}
 			}
 		}
